@@ -229,6 +229,43 @@ pub fn run(a: &Args) {
             c.rr("built-parts", "clone", &rr, &rr.clone());
         }
     }
+    // the same members in a different order, for every RDATA whose public fields hold a collection: whatever
+    // equality says about the pair, equal values must hash equally (EqHash; what equality says is not judged)
+    {
+        use simple_dns::rdata::{TypeBitMap, NSEC, SVCB, TXT};
+        let mut c = Cmp { out: &mut out, st: &mut st };
+        let win = |w: u8, b: &[u8]| TypeBitMap { window_block: w, bitmap: b.to_vec().into() };
+        let orders: Vec<(Vec<TypeBitMap<'static>>, Vec<TypeBitMap<'static>>)> = vec![
+            (vec![win(0, &[0x40]), win(1, &[0x01])], vec![win(1, &[0x01]), win(0, &[0x40])]),
+            (vec![win(0, &[0x40]), win(1, &[0x01]), win(255, &[0x80])], vec![win(255, &[0x80]), win(0, &[0x40]), win(1, &[0x01])]),
+            (vec![win(0, &[0x40]), win(1, &[0x01]), win(2, &[0x02])], vec![win(0, &[0x40]), win(2, &[0x02]), win(1, &[0x01])]),
+        ];
+        let mut pairs: Vec<(RData<'static>, RData<'static>)> = vec![];
+        for (x, y) in orders {
+            pairs.push((
+                RData::NSEC(NSEC { next_name: Name::new_unchecked("next.example"), type_bit_maps: x }),
+                RData::NSEC(NSEC { next_name: Name::new_unchecked("next.example"), type_bit_maps: y }),
+            ));
+        }
+        if let (Ok(x), Ok(y)) = (TXT::new().with_string("a=1").and_then(|t| t.with_string("b=2")), TXT::new().with_string("b=2").and_then(|t| t.with_string("a=1"))) {
+            pairs.push((RData::TXT(x), RData::TXT(y)));
+        }
+        let mut s1 = SVCB::new(1, Name::new_unchecked("svc.example"));
+        s1.set_port(443);
+        let _ = s1.set_ipv4hint([0x0a000001u32]);
+        let _ = s1.set_param(65000, vec![1u8]);
+        let mut s2 = SVCB::new(1, Name::new_unchecked("svc.example"));
+        let _ = s2.set_param(65000, vec![1u8]);
+        let _ = s2.set_ipv4hint([0x0a000001u32]);
+        s2.set_port(443);
+        pairs.push((RData::SVCB(s1), RData::SVCB(s2)));
+        for (x, y) in &pairs {
+            c.rdata("built-parts", "reordered", x, y);
+            let rx = ResourceRecord::new(Name::new_unchecked("p.example"), CLASS::IN, 30, x.clone());
+            let ry = ResourceRecord::new(Name::new_unchecked("p.example"), CLASS::IN, 30, y.clone());
+            c.rr("built-parts", "reordered", &rx, &ry);
+        }
+    }
     // set-valued instance information: same members inserted in different orders (cases from TLC)
     for case in load_cases(a, 1) {
         let build = |ips: &Value, ports: &Value, attrs_rev: bool| {
